@@ -99,7 +99,13 @@ def cat(op, inputs, dim=0):
 @register_qbytestensor_op([torch.ops.aten.lt])
 def lt(op, input, other):
     # Only quantized tensors with identical scales can be compared
-    if isinstance(input, QBytesTensor) and isinstance(other, QBytesTensor) and torch.equal(input._scale, other._scale):
+    if (
+        isinstance(input, QBytesTensor)
+        and isinstance(other, QBytesTensor)
+        and not input.qtype.is_floating_point
+        and input.qtype == other.qtype
+        and torch.equal(input._scale, other._scale)
+    ):
         return op(input._data, other._data)
     return qfallback(op, input, other)
 
